@@ -532,26 +532,6 @@ func genDocs(r *hlib.Rand, n int, want map[string]bool) []*tdoc {
 					garbage: [][]byte{[]byte("\"unterminated\n"), []byte(strings.Repeat("z,", cols+1) + "z\n")}})
 			}
 		}
-		if on("bson") {
-			v := bsonClean(genTextValue(vr, textCaps{null: true, floats: true, infNaN: true, depth: 4}, 0, true), vr)
-			m, ok := v.(map[string]any)
-			if !ok {
-				m = map[string]any{"a": v}
-			}
-			if vr.Bool() {
-				m["bin"] = bsonBin([]byte(strings.ReplaceAll(genString(vr), "\x00", "0")))
-			}
-			ks := make([]string, 0, len(m))
-			for k := range m {
-				ks = append(ks, k)
-			}
-			sort.Strings(ks)
-			vs := make([]any, len(ks))
-			for j, k := range ks {
-				vs[j] = m[k]
-			}
-			ds = append(ds, &tdoc{format: "bson", doc: bsonDoc(ks, vs, vr), expected: anyString(bsonExpected(m)), trailOK: true, val: bsonExpected(m)})
-		}
 	}
 	return ds
 }
